@@ -173,6 +173,25 @@ def must_return(what, fn, *args, **kwargs):
                         key='raised:%s@%s' % (type(e).__name__, where))
 
 
+# kinds of integer a caller may hand over where an id, a count or a size is expected
+INT_KINDS = ['int', 'int64', 'int32', 'uint32', 'uint8', 'int16', '0d', 'intp']
+
+
+def as_int_kind(v, k):
+    """The integer v as the k-th kind (Python int, NumPy scalar of some width, 0-d array); kinds
+    that cannot hold v fall back to int64."""
+    kind = INT_KINDS[k % len(INT_KINDS)]
+    if kind == 'int':
+        return int(v)
+    if kind == '0d':
+        return np.array(int(v))
+    dt = np.dtype(kind)
+    info = np.iinfo(dt)
+    if not (info.min <= int(v) <= info.max):
+        dt = np.dtype('int64')
+    return dt.type(int(v))
+
+
 def scribble(obj):
     """Edit a returned result in place, as a caller that owns it may do (rescale, sort, mask).
     Returns True if anything was edited.  Only used on results of computing accessors."""
